@@ -13,6 +13,7 @@ import (
 	"encoding/json"
 	"flag"
 	"fmt"
+	"math/rand"
 	"os"
 	"path/filepath"
 	"sort"
@@ -73,7 +74,7 @@ func runCase(g *cryptoutil.Group, c tcase, idx int, reps int, counts map[string]
 	}
 	rec := gen.GetGroupSign()
 	emit("Recovered", map[string]interface{}{
-		"path": "generator", "n": n, "m": len(c.Order), "generated": gen.SignRecovered(), "panicked": false,
+		"path": "generator", "idStyle": curStyle, "n": n, "m": len(c.Order), "generated": gen.SignRecovered(), "panicked": false,
 		"sigClass": classes.Of(rec.Serialize()), "verifies": groupsig.VerifySig(gpk, msg, rec)})
 	counts["recovered"]++
 	if len(c.Order) < k {
@@ -92,7 +93,7 @@ func runCase(g *cryptoutil.Group, c tcase, idx int, reps int, counts map[string]
 			cp[kk] = v
 		}
 		sig, panicked := recoverDirect(cp, k)
-		ev := map[string]interface{}{"path": "direct", "n": n, "m": len(c.Order), "generated": sig != nil, "panicked": panicked,
+		ev := map[string]interface{}{"path": "direct", "idStyle": curStyle, "n": n, "m": len(c.Order), "generated": sig != nil, "panicked": panicked,
 			"sigClass": 0, "verifies": false}
 		if sig != nil {
 			ev["sigClass"] = classes.Of(sig.Serialize())
@@ -127,7 +128,9 @@ func concurrentRecover(g *cryptoutil.Group, workers, iterations int) {
 		copy(jobs[i].msg, cryptoutil.HashOf("c13-conc", i).Bytes())
 		sig, panicked := recoverDirect(shares(jobs[i].msg), k)
 		if panicked || sig == nil || !groupsig.VerifySig(g.GPK[0], jobs[i].msg, *sig) {
-			vutil.Fatalf("harness: sequential reference recovery is not valid")
+			// the group itself is broken (already judged by the recoveries above): nothing to compare with
+			emit("ConcurrentRecover", map[string]interface{}{"n": g.N, "goroutines": 0, "iterations": 0, "mismatches": 0, "verifyFailures": 1})
+			return
 		}
 		jobs[i].ref = sig.Serialize()
 	}
@@ -160,6 +163,82 @@ func concurrentRecover(g *cryptoutil.Group, workers, iterations int) {
 	emit("ConcurrentRecover", map[string]interface{}{"n": g.N, "goroutines": workers, "iterations": iterations, "mismatches": mm, "verifyFailures": ff})
 }
 
+// curStyle is the id style of the group the current recoveries belong to (part of the Recovered events).
+var curStyle = "random"
+
+// dkg runs the node's DKG for one group and logs it.
+func dkg(rng *rand.Rand, n int, tag string, o cryptoutil.Opts, counts map[string]int) *cryptoutil.Group {
+	g, err := cryptoutil.RunDKGOpts(rng, n, tag, o)
+	if err != nil {
+		vutil.Fatalf("dkg: %v", err)
+	}
+	curStyle = o.IDStyle
+	if curStyle == "" {
+		curStyle = "random"
+	}
+	emit("DkgStart", map[string]interface{}{"n": n, "k": g.K, "idStyle": curStyle})
+	for _, d := range g.Deliveries {
+		emit("Deliver", map[string]interface{}{"to": d.To, "from": d.From, "rc": d.Rc, "dup": d.Dup,
+			"count": d.Count, "ready": d.Ready})
+		counts["deliver"]++
+		if d.Dup {
+			counts["dupDeliver"]++
+		}
+	}
+	for _, r := range g.Redeals {
+		emit("Redeal", map[string]interface{}{"dealer": r.Dealer, "after": r.After, "samePieces": r.SamePieces, "sameSeedPk": r.SameSeedPK})
+		counts["redeal"]++
+	}
+	// what the real nodes hold after the exchange
+	cl := &cryptoutil.Classes{}
+	gpkClass := make([]int, n)
+	shareOk := make([]bool, n)
+	msg0 := cryptoutil.HashOf("c13-share", n).Bytes()
+	for j := 0; j < n; j++ {
+		gpkClass[j] = cl.Of(g.GPK[j].Serialize())
+		shareOk[j] = g.SignSK[j].IsValid() && groupsig.VerifySig(g.SignPK[j], msg0, groupsig.Sign(g.SignSK[j], msg0))
+	}
+	sum := groupsig.AggregatePubkeys(g.SeedPK)
+	emit("DkgEnd", map[string]interface{}{"n": n, "idStyle": curStyle, "gpkClass": gpkClass,
+		"gpkIsSumOfDealerPubs": sum != nil && sum.IsEqual(g.GPK[0]), "shareOk": shareOk})
+	counts["dkg"]++
+	return g
+}
+
+// structured: several groups in ONE process whose member ids share structure -- the same 2-byte head and
+// 3-byte tail member by member with different middles, small integers shifted left by different amounts,
+// two ids congruent modulo the group order, an id that is the group order -- each with the same
+// responding subsets one after the other: a recovery must not depend on what was recovered before.
+func structured(rng *rand.Rand, sizes []int, reps int, counts map[string]int, idx *int) {
+	for _, n := range sizes {
+		k := model.Param.GetGroupK(n)
+		first, last := tcase{N: n}, tcase{N: n}
+		for j := 1; j <= k; j++ {
+			first.Subset, first.Order = append(first.Subset, j), append(first.Order, j)
+			last.Subset, last.Order = append(last.Subset, n-k+j), append([]int{n - k + j}, last.Order...)
+		}
+		for gi, o := range []cryptoutil.Opts{
+			{IDStyle: "tagged"}, {IDStyle: "tagged", Redealers: 1}, {IDStyle: "tagged"},
+			{IDStyle: "shifted", Shift: 5}, {IDStyle: "shifted", Shift: 9}, {IDStyle: "shifted", Shift: 20},
+			{IDStyle: "congruent"}, {IDStyle: "zeroModOrder"},
+		} {
+			g := dkg(rng, n, fmt.Sprintf("c13-structured-%d-%d", n, gi), o, counts)
+			if o.IDStyle == "congruent" || o.IDStyle == "zeroModOrder" {
+				emit("IdFacts", map[string]interface{}{"idStyle": o.IDStyle,
+					"sharesOfMembers1And2Equal": g.SignSK[0].IsEqual(g.SignSK[1]),
+					"member1HoldsGroupSecret":   groupsig.GeneratePubkey(g.SignSK[0]).IsEqual(g.GPK[0])})
+			}
+			for _, c := range []tcase{first, last} {
+				*idx++
+				runCase(g, c, *idx, reps, counts)
+				counts["cases"]++
+				counts["structuredCases"]++
+			}
+		}
+	}
+	curStyle = "random"
+}
+
 func main() {
 	out := flag.String("out", "trace.ndjson", "trace file")
 	script := flag.String("script", "", "JSON file: list of TLC-generated cases")
@@ -168,6 +247,7 @@ func main() {
 	nRandom := flag.Int("random", 0, "seeded random cases per group")
 	reps := flag.Int("reps", 2, "direct recoveries per case")
 	ksweep := flag.Int("ksweep", 0, "emit, for n = 1..ksweep, the threshold the signing side uses (GetGroupK) and the one the DKG deals with")
+	structuredSizes := flag.String("structured", "", "comma separated group sizes for the groups with structured member ids")
 	big := flag.String("big", "", "comma separated group sizes for one DKG + one recovery each (sizes beyond the default maximum)")
 	flag.Parse()
 	if *scratch == "" {
@@ -242,32 +322,8 @@ func main() {
 	sort.Ints(ns)
 	idx := 0
 	for _, n := range ns {
-		g, err := cryptoutil.RunDKG(rng, n, fmt.Sprintf("c13-%d-%d", *salt, n))
-		if err != nil {
-			vutil.Fatalf("dkg: %v", err)
-		}
-		emit("DkgStart", map[string]interface{}{"n": n, "k": g.K})
-		for _, d := range g.Deliveries {
-			emit("Deliver", map[string]interface{}{"to": d.To, "from": d.From, "rc": d.Rc, "dup": d.Dup,
-				"count": d.Count, "ready": d.Ready})
-			counts["deliver"]++
-			if d.Dup {
-				counts["dupDeliver"]++
-			}
-		}
-		// what the real nodes hold after the exchange
-		cl := &cryptoutil.Classes{}
-		gpkClass := make([]int, n)
-		shareOk := make([]bool, n)
-		msg0 := cryptoutil.HashOf("c13-share", n).Bytes()
-		for j := 0; j < n; j++ {
-			gpkClass[j] = cl.Of(g.GPK[j].Serialize())
-			shareOk[j] = g.SignSK[j].IsValid() && groupsig.VerifySig(g.SignPK[j], msg0, groupsig.Sign(g.SignSK[j], msg0))
-		}
-		sum := groupsig.AggregatePubkeys(g.SeedPK)
-		emit("DkgEnd", map[string]interface{}{"n": n, "gpkClass": gpkClass,
-			"gpkIsSumOfDealerPubs": sum != nil && sum.IsEqual(g.GPK[0]), "shareOk": shareOk})
-		counts["dkg"]++
+		// every second group has a dealer whose context is rebuilt in the middle of the exchange
+		g := dkg(rng, n, fmt.Sprintf("c13-%d-%d", *salt, n), cryptoutil.Opts{Redealers: n % 2}, counts)
 		list := byN[n]
 		// seeded random cases: random subsets (also one below the threshold) in random order
 		k := model.Param.GetGroupK(n)
@@ -295,8 +351,19 @@ func main() {
 			counts["concurrent"]++
 		}
 	}
+	if *structuredSizes != "" {
+		var sizes []int
+		for _, f := range strings.Split(*structuredSizes, ",") {
+			n, err := strconv.Atoi(f)
+			if err != nil {
+				vutil.Fatalf("--structured: %v", err)
+			}
+			sizes = append(sizes, n)
+		}
+		structured(rng, sizes, *reps, counts, &idx)
+	}
 	tr.Close()
-	fmt.Printf("c13: cases=%d dkg=%d deliver=%d dupDeliver=%d arrive=%d recovered=%d superset=%d below=%d k=%d big=%d concurrent=%d events=%d\n",
-		counts["cases"], counts["dkg"], counts["deliver"], counts["dupDeliver"], counts["arrive"], counts["recovered"],
+	fmt.Printf("c13: redeal=%d structuredCases=%d cases=%d dkg=%d deliver=%d dupDeliver=%d arrive=%d recovered=%d superset=%d below=%d k=%d big=%d concurrent=%d events=%d\n",
+		counts["redeal"], counts["structuredCases"], counts["cases"], counts["dkg"], counts["deliver"], counts["dupDeliver"], counts["arrive"], counts["recovered"],
 		counts["superset"], counts["below"], counts["k"], counts["big"], counts["concurrent"], tr.N)
 }
